@@ -186,7 +186,9 @@ func GetId(t vocab.Type) (*url.URL, error) {
 }
 
 // getInboxForwardingValues obtains the 'inReplyTo', 'object', 'target', and
-// 'tag' values on an ActivityStreams value.
+// 'tag' values on an ActivityStreams value. Values that are neither a known
+// type nor an IRI (for example a tag of a type the vocabularies do not define)
+// have no id this server could own and are left out.
 func getInboxForwardingValues(o vocab.Type) (t []vocab.Type, iri []*url.URL) {
 	// 'inReplyTo'
 	if i, ok := o.(inReplyToer); ok {
@@ -194,7 +196,7 @@ func getInboxForwardingValues(o vocab.Type) (t []vocab.Type, iri []*url.URL) {
 			for iter := irt.Begin(); iter != irt.End(); iter = iter.Next() {
 				if tv := iter.GetType(); tv != nil {
 					t = append(t, tv)
-				} else {
+				} else if iter.IsIRI() {
 					iri = append(iri, iter.GetIRI())
 				}
 			}
@@ -206,7 +208,7 @@ func getInboxForwardingValues(o vocab.Type) (t []vocab.Type, iri []*url.URL) {
 			for iter := tag.Begin(); iter != tag.End(); iter = iter.Next() {
 				if tv := iter.GetType(); tv != nil {
 					t = append(t, tv)
-				} else {
+				} else if iter.IsIRI() {
 					iri = append(iri, iter.GetIRI())
 				}
 			}
@@ -218,7 +220,7 @@ func getInboxForwardingValues(o vocab.Type) (t []vocab.Type, iri []*url.URL) {
 			for iter := obj.Begin(); iter != obj.End(); iter = iter.Next() {
 				if tv := iter.GetType(); tv != nil {
 					t = append(t, tv)
-				} else {
+				} else if iter.IsIRI() {
 					iri = append(iri, iter.GetIRI())
 				}
 			}
@@ -230,7 +232,7 @@ func getInboxForwardingValues(o vocab.Type) (t []vocab.Type, iri []*url.URL) {
 			for iter := tar.Begin(); iter != tar.End(); iter = iter.Next() {
 				if tv := iter.GetType(); tv != nil {
 					t = append(t, tv)
-				} else {
+				} else if iter.IsIRI() {
 					iri = append(iri, iter.GetIRI())
 				}
 			}
